@@ -628,6 +628,12 @@ func matchFuncCall(pkg *Package, fn *internal.Elem, args []*internal.Elem, lhs i
 		}
 		log.Println("==> MatchFuncCall", ft, "args:", len(args), "lhs:", lhs, "flags:", flags)
 	}
+	for _, arg := range args {
+		if arg.Type == nil { // e.g. a call to a function without results used as an operand
+			src, pos, end := pkg.cb.loadExpr(arg.Src)
+			return nil, pkg.cb.newCodeError(pos, end, fmt.Sprintf("%v (no value) used as value", src))
+		}
+	}
 	var sig *types.Signature
 	var cval constant.Value
 retry:
@@ -1273,7 +1279,7 @@ func checkFuncResults(pkg *Package, rets []*internal.Elem, results *types.Tuple,
 func getTypes(rets []*internal.Elem) string {
 	typs := make([]string, len(rets))
 	for i, ret := range rets {
-		typs[i] = ret.Type.String()
+		typs[i] = fmt.Sprint(ret.Type) // nil for an operand without a value
 	}
 	return strings.Join(typs, ", ")
 }
